@@ -3,6 +3,8 @@ package main
 import (
 	"encoding/json"
 	"fmt"
+	"github.com/semihalev/twig"
+	"runtime"
 	"runtime/debug"
 	"strings"
 )
@@ -83,6 +85,7 @@ func c14ManyTags(res *Result) {
 
 func runC14(cases string, res *Result) {
 	c14ManyTags(res)
+	c14ExactCapacities(res)
 	readCases(cases, func(c Case) {
 		if _, has := c["src"]; has {
 			src := c.hexs("src")
@@ -217,4 +220,56 @@ func c14HeldResult(a, b string) (first, now string) {
 		eng.Render("inc", ctx)
 	}
 	return first, held
+}
+
+// c14ExactCapacities: templates whose number of tokens meets the size the tokenizer gives its token buffer exactly
+// (a tenth of the source length, at least 256), parsed by a tokenizer fresh from an emptied pool: dashed tags trim
+// as in any other template, and appended literal text changes the output by that text only.
+func c14ExactCapacities(res *Result) {
+	render := func(src string) string {
+		runtime.GC()
+		runtime.GC()
+		eng := twig.New()
+		if err := eng.RegisterString("t", src); err != nil {
+			return "parse error: " + err.Error()
+		}
+		out, err := eng.Render("t", map[string]interface{}{"a": "A", "c": true})
+		if err != nil {
+			return "error: " + err.Error()
+		}
+		return out
+	}
+	for _, shape := range []struct {
+		name string
+		mk   func(units, text string) (src, want string)
+	}{
+		{"units then text", func(units, text string) (string, string) { return units + text, "" }},
+		{"text, then units in a dashed if", func(units, text string) (string, string) {
+			return text + " {%- if c -%} " + units + "{%- endif -%} ", ""
+		}},
+	} {
+		for _, n := range []int{64, 100, 500, 2000} {
+			units := strings.Repeat("{{- a -}} ", n)
+			for k := -25; k <= 25; k++ {
+				pad := 30*n + k
+				if pad < 1 {
+					continue
+				}
+				text := "T" + strings.Repeat("x", pad-1)
+				src, _ := shape.mk(units, text)
+				want := strings.Repeat("A", n) + text
+				if shape.name != "units then text" {
+					want = text + strings.Repeat("A", n)
+				}
+				res.Evaluations++
+				res.Hist["stream:exact-capacities"]++
+				res.count(fmt.Sprint("exact-capacities", shape.name, n, k), true)
+				if got := render(src); got != want {
+					res.add(Finding{Kind: "oracle", Where: "exact-capacities/" + shape.name, Case: Case{"stream": "exact-capacities", "units": n, "appended bytes": pad, "shape": shape.name},
+						Expected: clip(want), Observed: clip(got), Detail: fmt.Sprintf("%d units of `{{- a -}} ` and %d bytes of literal text, parsed after the pools were emptied: the dashes do not trim (or the text is not what was appended)", n, pad)})
+					return
+				}
+			}
+		}
+	}
 }
